@@ -424,9 +424,9 @@ func (p *C09) genDictUse(r *model.Rand) (Base, string) {
 // nonsense (clause 2 of the property)
 
 type nonsense struct {
-	class   string
-	carrier string // text|yaml|flag
-	steps   []Step
+	class    string
+	carrier  string // text|yaml|flag
+	steps    []Step
 	mustFail int // index of the step that has to fail
 }
 
